@@ -192,6 +192,9 @@ func RunC09(r *core.Rng, run uint64, seed uint64, tier string, cov *Cov) []*Viol
 		}
 	}
 	cfg := gen.DefaultCfg(r)
+	// stray race header lines: whatever happens to them (KF-1) must not depend
+	// on the delivery either
+	cfg.ExactRaceSep = r.Chance(0.15)
 	doc := gen.Generate(r, cfg)
 	if r.Chance(0.12) && gen.Malform(r, doc) {
 		// a dump the scanner must reject: the error path, too, must not depend
